@@ -1,5 +1,6 @@
 (* C11: incremental clause edits.  Property theorems only (proofs: Proofs/EditReduce.v,
    EditRenumber.v, EditUnit.v, EditSpec.v, EditDispatch.v); see bin/propcfg/C11.py for the status.
+   The model is the code after the repairs F14-F17 (K23, K25, K26, K34).
    PARTIAL BY DESIGN: the unit-clause edit is modelled and proved; the bridge / sub-DAG / recompile /
    undo machinery is not modelled - for it there is only the specification edit_spec and the
    correspondence run against its truth table. *)
@@ -44,6 +45,9 @@ Proof. exact prepare_no_panic. Qed.
 Print Assumptions C11_prepare_no_panic.
 
 (* ---------- the dispatch conditions ---------- *)
+(* Model/Edit.v follows /repo AFTER the repairs F14 (K23), F15 (K25), F16 (K26), F17 (K34) of
+   parser/intermediate_representation.rs (commits: see KNOWN_FINDINGS.txt, `fixed:` lines of C11);
+   theorems named `.._v0` are about the code BEFORE the repair in question. *)
 Theorem C11_dispatch_nothing : forall f, dispatch f [] [] = Decided StTautology.
 Proof. exact dispatch_nothing. Qed.
 Print Assumptions C11_dispatch_nothing.
@@ -53,43 +57,156 @@ Theorem C11_dispatch_cache_hit : forall f a r,
 Proof. exact dispatch_cache_hit. Qed.
 Print Assumptions C11_dispatch_cache_hit.
 
-(* one added unit clause over an existing variable -> unit path, whatever else the edit removes *)
-Theorem C11_dispatch_unit : forall f l r,
-  cache_hit f = false -> Z.abs l <= ig_nvars f -> dispatch f [[l]] r = Decided StUnitClause.
+(* one added unit clause over an existing variable and nothing to remove -> unit path *)
+Theorem C11_dispatch_unit : forall f l,
+  cache_hit f = false -> Z.abs l <= ig_nvars f -> dispatch f [[l]] [] = Decided StUnitClause.
 Proof. exact dispatch_unit. Qed.
 Print Assumptions C11_dispatch_unit.
 
-(* empty stored clause list (all nnf-loaded models): Tautology, or Recompile when root = node 0 *)
+(* ... and the unit path is taken in exactly that case *)
+Theorem C11_dispatch_unit_iff : forall f a r,
+  dispatch f a r = Decided StUnitClause <->
+  cache_hit f = false /\ r = [] /\ exists l, a = [[l]] /\ Z.abs l <= ig_nvars f.
+Proof. exact dispatch_unit_iff. Qed.
+Print Assumptions C11_dispatch_unit_iff.
+
+(* an edit with removals never takes the unit path (which would drop them): K26 repaired by F16 *)
+Theorem C11_dispatch_removal_not_unit : forall f a r,
+  r <> [] -> dispatch f a r <> Decided StUnitClause.
+Proof. exact dispatch_removal_not_unit. Qed.
+Print Assumptions C11_dispatch_removal_not_unit.
+
+(* the code before F16 (K26): one added unit clause over an existing variable took the unit path
+   whatever else the edit removes; add_unit_clause never reads the removals *)
+Theorem C11_dispatch_unit_drops_removal_v0 : forall f l r,
+  cache_hit f = false -> Z.abs l <= ig_nvars f -> dispatch_v0 f [[l]] r = Decided StUnitClause.
+Proof. exact dispatch_unit_v0. Qed.
+Print Assumptions C11_dispatch_unit_drops_removal_v0.
+
+(* F16 changes the decision of edits with removals only *)
+Theorem C11_dispatch_v0_same_without_removal : forall f a, dispatch f a [] = dispatch_v0 f a [].
+Proof. exact dispatch_v0_same_without_removal. Qed.
+Print Assumptions C11_dispatch_v0_same_without_removal.
+
+(* empty stored clause list (all nnf-loaded models; K3 / K20 / K27): every edit that is not a pure
+   unit edit over an existing variable is answered Tautology, or Recompile when root = node 0 *)
 Theorem C11_dispatch_empty_store : forall f a r,
   cache_hit f = false -> stored_cnf_empty f = true -> (a <> [] \/ r <> []) ->
-  (forall l, a = [[l]] -> ig_nvars f < Z.abs l) ->
+  (forall l, a = [[l]] -> r = [] -> ig_nvars f < Z.abs l) ->
   dispatch f a r = Decided (if root_is_node0 f then StRecompile else StTautology).
 Proof. exact dispatch_empty_store. Qed.
 Print Assumptions C11_dispatch_empty_store.
 
+(* ---------- the undo cache: predicate and keys ---------- *)
 Theorem C11_cache_matches_inverse : forall a r, cache_matches a r r a = true.
 Proof. exact cache_matches_inverse. Qed.
 Print Assumptions C11_cache_matches_inverse.
 
-(* refuted: the cache predicate also accepts a request that is NOT the inverse (K25) *)
-Theorem C11_cache_matches_partial_refuted :
-  exists a r a' r', cache_matches a r a' r' = true /\ ~ (vec_value_eq r a' = true).
-Proof. exact cache_matches_partial_refuted. Qed.
-Print Assumptions C11_cache_matches_partial_refuted.
+(* a request is answered from the cache iff it is the exact inverse of the entry: its added clauses
+   are, as a set of literal sets, the entry's removed clauses and vice versa (K25 repaired by F15) *)
+Theorem C11_cache_matches_iff_inverse : forall ea er a r,
+  cache_matches ea er a r = true <-> same_clauses a er /\ same_clauses r ea.
+Proof. exact cache_matches_iff. Qed.
+Print Assumptions C11_cache_matches_iff_inverse.
 
-(* refuted: clause removal on the unit-propagated stored list (K8) and removal of two different
-   clauses at once (K23) do not yield the clause set of the specification *)
+Theorem C11_cache_find_inverse : forall keys a r e,
+  cache_find keys a r = Some e -> In e keys /\ same_clauses a (snd e) /\ same_clauses r (fst e).
+Proof. exact cache_find_Some. Qed.
+Print Assumptions C11_cache_find_inverse.
+
+(* the code before F15 (K25): the predicate (inclusion in one direction) also accepted a request
+   that is NOT the inverse; the repaired predicate rejects that request *)
+Theorem C11_cache_matches_partial_refuted_v0 :
+  exists ea er a r, cache_matches_v0 ea er a r = true /\ ~ same_clauses a er /\
+                    cache_matches ea er a r = false.
+Proof. exact cache_matches_partial_refuted_v0. Qed.
+Print Assumptions C11_cache_matches_partial_refuted_v0.
+
+Theorem C11_cache_matches_v0_weaker : forall ea er a r,
+  cache_matches ea er a r = true -> cache_matches_v0 ea er a r = true.
+Proof. exact cache_matches_v0_weaker. Qed.
+Print Assumptions C11_cache_matches_v0_weaker.
+
+(* a unit edit empties the cache: the edit after it is never answered Undo (K34 repaired by F17) *)
+Theorem C11_unit_edit_clears_cache : forall keys a r,
+  cache_find (cache_after_unit keys) a r = None.
+Proof. exact cache_find_after_unit. Qed.
+Print Assumptions C11_unit_edit_clears_cache.
+
+Theorem C11_no_undo_after_unit : forall f keys a r,
+  cache_hit f = is_some (cache_find (cache_after_unit keys) a r) -> dispatch f a r <> Decided StUndo.
+Proof. exact no_undo_after_unit. Qed.
+Print Assumptions C11_no_undo_after_unit.
+
+(* the code before F17 (K34): the entry of an older edit survived a unit edit, its inverse was
+   answered Undo (restoring a state without the unit clause) *)
+Theorem C11_undo_stale_after_unit_refuted_v0 :
+  exists keys a r, cache_find (cache_after_unit_v0 keys) a r <> None /\
+                   cache_find (cache_after_unit keys) a r = None.
+Proof. exact undo_stale_after_unit_refuted_v0. Qed.
+Print Assumptions C11_undo_stale_after_unit_refuted_v0.
+
+(* ---------- the stored clause list ---------- *)
+(* the retain step of adjust_intern_cnf removes exactly the stored clauses that are (as sets) among
+   the clauses to remove - any number of them - and keeps the others in order (K23 repaired by F14) *)
+Theorem C11_retain_removes_exactly : forall stored rmv c,
+  In c (retain_clauses stored rmv) <-> In c stored /\ mem_clause c rmv = false.
+Proof. exact retain_clauses_In. Qed.
+Print Assumptions C11_retain_removes_exactly.
+
+Theorem C11_retain_is_filter : forall stored rmv,
+  retain_clauses stored rmv = filter (fun c => negb (mem_clause c rmv)) stored.
+Proof. exact retain_clauses_filter. Qed.
+Print Assumptions C11_retain_is_filter.
+
+(* it is the removal step of the specification *)
+Theorem C11_retain_is_edit_spec : forall F n rmvs,
+  fst (edit_spec F n [] rmvs) = retain_clauses F (filter_map' norm_clause rmvs).
+Proof. exact retain_is_spec. Qed.
+Print Assumptions C11_retain_is_edit_spec.
+
+(* and on a stored list that simplify_clauses leaves alone (duplicate-free, non-tautological,
+   non-unit clauses) the whole of adjust_intern_cnf is the removal of the specification *)
+Theorem C11_adjust_removal_is_edit_spec : forall F n rmvs,
+  plain_clauses F ->
+  adjust_intern_cnf F [] (filter_map' norm_clause rmvs) = fst (edit_spec F n [] rmvs).
+Proof. exact adjust_removal_is_spec. Qed.
+Print Assumptions C11_adjust_removal_is_edit_spec.
+
+(* refuted, still (K8): clause removal on the unit-propagated stored list does not yield the clause
+   set of the specification *)
 Theorem C11_removal_after_simplify_refuted :
   length (cnf_models_n (adjust_intern_cnf (simplify_clauses k8_cnf) [] [[-4]]) 4) = 6%nat /\
   length (cnf_models_n (fst (edit_spec k8_cnf 4 [] [[-4]])) 4) = 4%nat.
 Proof. exact removal_after_simplify_refuted. Qed.
 Print Assumptions C11_removal_after_simplify_refuted.
 
-Theorem C11_multi_removal_refuted :
-  adjust_intern_cnf [[-1; 2]; [-1; -2]] [] [[-1; 2]; [-1; -2]] = [[-1; 2]; [-1; -2]] /\
-  fst (edit_spec [[-1; 2]; [-1; -2]] 2 [] [[-1; 2]; [-1; -2]]) = [].
-Proof. exact multi_removal_refuted. Qed.
-Print Assumptions C11_multi_removal_refuted.
+(* refuted (K38): an edit answered Recompile applies adjust_intern_cnf TWICE (once in
+   transform_to_cnf_from_starting_cnf, once in recompile_everything); the second round removes a
+   clause that the first round shortened to a removed clause.  CNF {-1 -2}, edit (remove {-1}, add
+   {2}): the compiled list is {2} (2 models) instead of {-1 -2},{2} (1 model) *)
+Theorem C11_recompile_adjusts_twice_refuted :
+  recompile_stored [[-1; -2]] [[2]] [[-1]] = [[2]] /\
+  cnf_models_n (recompile_stored [[-1; -2]] [[2]] [[-1]]) 2 = [[1; 2]; [-1; 2]] /\
+  cnf_models_n (fst (edit_spec [[-1; -2]] 2 [[2]] [[-1]])) 2 = [[-1; 2]] /\
+  cnf_models_n (adjust_intern_cnf [[-1; -2]] [[2]] [[-1]]) 2 = [[-1; 2]].
+Proof. exact recompile_adjusts_twice_refuted. Qed.
+Print Assumptions C11_recompile_adjusts_twice_refuted.
+
+(* the code before F14 (K23): removing two different clauses at once removed nothing; the repaired
+   code removes both, as the specification *)
+Theorem C11_multi_removal_refuted_v0 :
+  adjust_intern_cnf_v0 [[-1; 2]; [-1; -2]] [] [[-1; 2]; [-1; -2]] = [[-1; 2]; [-1; -2]] /\
+  fst (edit_spec [[-1; 2]; [-1; -2]] 2 [] [[-1; 2]; [-1; -2]]) = [] /\
+  adjust_intern_cnf [[-1; 2]; [-1; -2]] [] [[-1; 2]; [-1; -2]] = [].
+Proof. exact multi_removal_refuted_v0. Qed.
+Print Assumptions C11_multi_removal_refuted_v0.
+
+(* with one clause to remove the old retain step already was the repaired one *)
+Theorem C11_retain_v0_single : forall stored r,
+  retain_clauses_v0 stored [r] = retain_clauses stored [r].
+Proof. exact retain_v0_single. Qed.
+Print Assumptions C11_retain_v0_single.
 
 (* ---------- (c) the specification ---------- *)
 (* adding clauses is conjunction (tautological clauses change nothing, duplicates are absorbed) *)
@@ -276,16 +393,48 @@ Example ex_c11_reduce :
   reduce_clause [1; 2] [-1; -2] = None /\ reduce_clause [1; 2] [2] = Some [].
 Proof. vm_compute. repeat split. Qed.
 
-(* the dispatch on concrete facts: unit clause over an old / a new variable, nnf-loaded model *)
+(* the dispatch on concrete facts: unit clause over an old / a new variable, nnf-loaded model; a
+   unit clause that comes with a removal takes the general path (before F16: the unit path) *)
 Example ex_c11_dispatch :
   let nnf := {| cache_hit := false; ig_nvars := 3; stored_cnf_empty := true; root_is_node0 := false |} in
   let d4r := {| cache_hit := false; ig_nvars := 3; stored_cnf_empty := true; root_is_node0 := true |} in
   let cnf := {| cache_hit := false; ig_nvars := 3; stored_cnf_empty := false; root_is_node0 := true |} in
   dispatch nnf [[2]] [] = Decided StUnitClause /\ dispatch nnf [[4]] [] = Decided StTautology /\
   dispatch d4r [[4]] [] = Decided StRecompile /\ dispatch nnf [] [[2]] = Decided StTautology /\
-  dispatch cnf [[2]] [[1; 3]] = Decided StUnitClause /\ dispatch cnf [[1; 2]] [] = GraphDependent /\
+  dispatch cnf [[2]] [] = Decided StUnitClause /\
+  dispatch cnf [[2]] [[1; 3]] = GraphDependent /\ dispatch_v0 cnf [[2]] [[1; 3]] = Decided StUnitClause /\
+  dispatch cnf [[1; 2]] [] = GraphDependent /\
   prepare [([1; -1], AddC); ([2; 2], AddC); ([], RemoveC); ([3; 1], RemoveC)] = Prepared [[2]] [[3; 1]].
 Proof. vm_compute. repeat split. Qed.
+
+(* the cache predicate: the inverse spelled in another order matches, a partial inverse and a
+   superset do not (the K25 history: entry = add {1 3}, remove {1}); the K34 history: entry of
+   `add [2 3]`, request `remove [2 3]` after a unit edit *)
+Example ex_c11_cache :
+  cache_matches [[1; 3]] [[1]] [[1]] [[3; 1]] = true /\
+  cache_matches [[1; 3]] [[1]] [] [[1; 3]] = false /\ cache_matches_v0 [[1; 3]] [[1]] [] [[1; 3]] = true /\
+  cache_matches [[1; 3]] [] [[2]] [[1; 3]] = false /\
+  same_clauses [[1]] [[1]; [1; 1]] /\ ~ same_clauses [] [[1]] /\
+  cache_find [([[2; 3]], [])] [] [[3; 2]] = Some ([[2; 3]], []) /\
+  cache_find (cache_after_unit [([[2; 3]], [])]) [] [[3; 2]] = None.
+Proof.
+  repeat split; try (vm_compute; reflexivity).
+  - intros c [<-|[]]. exists [1]. split; [now left|]. intros l; tauto.
+  - intros c [<-|[<-|[]]]; exists [1]; (split; [now left|]); intros l; cbn; tauto.
+  - intros [_ H]. destruct (H [1] (or_introl eq_refl)) as [d [[] _]].
+Qed.
+
+(* the stored clause list: removal of two clauses at once (the K23 history, second clause spelled
+   in another order), of a clause that is absent, and on a list with a unit clause (K8 remains) *)
+Example ex_c11_adjust :
+  plain_clauses [[-1; 2]; [-1; -2]] /\
+  adjust_intern_cnf [[-1; 2]; [-1; -2]] [] [[-1; 2]; [-2; -1]] = [] /\
+  adjust_intern_cnf_v0 [[-1; 2]; [-1; -2]] [] [[-1; 2]; [-2; -1]] = [[-1; 2]; [-1; -2]] /\
+  adjust_intern_cnf [[-1; 2]; [-1; -2]; [1; 3]] [] [[2; -1]; [3; 1]; [2; 3]] = [[-1; -2]] /\
+  adjust_intern_cnf [[1; 2]] [[-1]] [] = [[-1]; [2]] /\
+  adjust_intern_cnf [[2]; [-1]] [] [[-1]] = [[2]].
+Proof.
+  split; [exact plain_example|vm_compute; repeat split]. Qed.
 
 (* the specification on the K8 formula: removing -4 gives the three remaining clauses *)
 Example ex_c11_spec :
